@@ -180,7 +180,14 @@ impl ser::Serializer for TreeSer {
 }
 
 pub fn tree<T: Serialize>(v: &T, cfg: TreeSer) -> Value {
-    v.serialize(cfg).expect("tree serialization")
+    match v.serialize(cfg) {
+        Ok(x) => x,
+        Err(e) => {
+            // a limitation of this test format (e.g. 128-bit integers, non-string map keys), not a verdict
+            eprintln!("serde probe: the test serializer cannot represent a value: {e}");
+            std::process::exit(2);
+        }
+    }
 }
 
 pub fn self_describing<T: Serialize>(v: &T) -> Value {
